@@ -20,4 +20,27 @@ def facts(read, die, define):
     if not m:
         die("C20: cannot find the genotype cast of Tree.map_mutations")
     out.append("Definition c20_py_genotype_bits : Z := %d." % int(m.group(1)))
+    # Which of the two recognised shapes does the handling of missing samples have?
+    #   current:  missing sample -> optimal_set[u] = UINT64_MAX, Hartigan step only for
+    #             non-sample nodes (finding F2)
+    #   repaired: missing sample -> optimal_set[u] left 0, Hartigan step also for
+    #             optimal_set[u] == 0
+    # Anything else fails closed: the model must be re-read against the code.
+    m = re.search(r"tsk_tree_map_mutations\(.*?^}", tc, re.S | re.M)
+    if not m:
+        die("C20: cannot find tsk_tree_map_mutations")
+    body = re.sub(r"/\*.*?\*/", "", m.group(0), flags=re.S)
+    body = re.sub(r"\s+", " ", body)
+    miss = re.search(r"if \(genotypes\[j\] == TSK_MISSING_DATA\) \{(.*?)\} else \{", body)
+    cond = re.search(r"if \((u == \(tsk_id_t\) N \|\| !\(node_flags\[u\] & TSK_NODE_IS_SAMPLE\)[^{]*)\) \{ max_allele_count = 0;", body)
+    if not miss or not cond:
+        die("C20: cannot find the missing-data branch / the Hartigan-step condition of tsk_tree_map_mutations")
+    mb, cb = miss.group(1).strip(), cond.group(1).strip()
+    if mb == "optimal_set[u] = UINT64_MAX;" and cb == "u == (tsk_id_t) N || !(node_flags[u] & TSK_NODE_IS_SAMPLE)":
+        flag = "false"
+    elif mb == "" and cb == "u == (tsk_id_t) N || !(node_flags[u] & TSK_NODE_IS_SAMPLE) || optimal_set[u] == 0":
+        flag = "true"
+    else:
+        die("C20: unrecognised handling of missing samples in tsk_tree_map_mutations: %r / %r" % (mb, cb))
+    out.append("Definition c20_missing_through_hartigan : bool := %s." % flag)
     return out
